@@ -367,7 +367,10 @@ class BufferedFile(ClosingContextManager):
 
         :returns: file position (`number <int>` of bytes).
         """
-        return self._pos
+        pending = self._wbuffer.tell()
+        if pending and self._flags & self.FLAG_APPEND:
+            return self._size + pending
+        return self._pos + pending
 
     def write(self, data):
         """
